@@ -536,7 +536,8 @@ class World:
             c.check(reg == (not rem and not r.manual), 'registered_iff_not_removed',
                     sig=[r.kind, how, to, 'registered' if reg else 'not_registered'])
             if rem:
-                if ('rem', i, len(rem)) not in once:
+                # (a removal the user asked for may be reported whenever the library likes, or not at all)
+                if not r.manual and ('rem', i, len(rem)) not in once:
                     once.add(('rem', i, len(rem)))
                     if r.deadline is None:
                         c.check(False, 'removal_only_with_timeout', sig=[r.kind])
@@ -762,8 +763,14 @@ def h_timer(c, script='wc', picker=True):
     st = {'cur': None, 'timeout': None}
     herr = []
 
+    def say(*a):
+        if not c.symbolic:
+            c.note(f't={float(loop.time()):g}', *[str(x) for x in a])
+
     async def callback():
         cur = st['cur']
+        if not c.symbolic:
+            say('callback runs; current arming:', 'none (cancelled)' if cur is None else f"#{cur} due {float(armings[cur]['deadline']):g}")
         if cur is not None:
             armings[cur]['fired'] += 1
         fires.append((loop.time(), cur, armings[cur]['fired'] if cur is not None else 0))
@@ -787,6 +794,7 @@ def h_timer(c, script='wc', picker=True):
     async def user():
         await asyncio.sleep(dur(c, 'start_at'))
         arm(t0)
+        say('start, timeout', t0)
         as_library(timer.start)
         for i, op in enumerate(script):
             if op == 'w':
@@ -795,13 +803,16 @@ def h_timer(c, script='wc', picker=True):
                 await asyncio.sleep(0)
             elif op == 'c':
                 supersede()
+                say('cancel()')
                 as_library(timer.cancel)
             elif op == 'r':
                 t = dur(c, f'timeout{i}')
                 arm(t)
+                say('reschedule, timeout', t)
                 as_library(timer.reschedule, t)
             elif op == 'n':
                 arm(None)
+                say('reschedule()')
                 as_library(timer.reschedule)
             else:
                 herr.append(f'unknown op {op}')
@@ -895,7 +906,7 @@ META = {
     'technique': 'symbolic execution of the real SearchManager / Timer / ticket generator on z3 Int/Real proxies on a virtual-time '
                  'event loop whose timer heap is ordered by z3; obligations are z3 queries per path; models are replayed concretely',
     'explanation': 'The real SearchManager (real constructor, EventBus, Settings), Timer, BackgroundTask and ticket_generator run on '
-                   'engine.vloop.VLoop. The generator position (1..2^32-1), every reply ticket (uint32), every configured or '
+                   'engine.vloop.VLoop (subclass CLoop: exact clock, two-way schedule choice). The generator position (1..2^32-1), every reply ticket (uint32), every configured or '
                    'server-provided time-out (integer seconds, 0 = off) and every waiting time (real seconds) are z3 variables. A comparison of '
                    'two symbolic instants inside the loop (timer heap, "is it due") forks, so whether a reply / removal / expiry comes '
                    'first, or coincides, is decided by the solver for all values. Obligations compare the events seen on the real '
@@ -913,8 +924,9 @@ META = {
               'peer/server connection of an incoming message -> object with an async disconnect()',
               'shares manager / upload info provider -> None (not touched by the executed functions)',
               'tickets: the live generator object of the manager is put at a symbolic position by overwriting its local variable '
-              '(PyFrame_LocalsToFast) and its values are re-boxed as TInt = SInt with constant hash, so that the real dict '
-              '`requests` decides key equality through z3 (symbolic exploration only; replays use plain ints)',
+              '(PyFrame_LocalsToFast; validated in prelude) and the module global `ticket_generator` of search/manager.py is wrapped so '
+              'that yielded values are TInt = SInt with constant hash: the real dict `requests` then decides key equality through z3 '
+              '(symbolic exploration only; replays use plain ints and the unwrapped generator)',
               'symbolic time-outs are written into the real pydantic settings objects through __dict__ (a proxy cannot pass int '
               'validation); replays assign them normally',
               'logging disabled'],
@@ -923,19 +935,22 @@ META = {
                        'server WishlistInterval 0..2^32-1 (Int)', 'every waiting time, every Timer-level timeout, every duration of a slow send: Real 0..2^36 s',
                        'hence every deadline and every instant at which a reply / removal / expiry happens (Real)'],
     'discriminants': ['the sequence of API calls of a history (job parameter)', 'which registered request the user removes',
-                      'which request a matching reply answers', 'order of the ready callbacks of the loop within one instant (picker)',
+                      'which request a matching reply answers', 'which side (user task / library task) runs next when callbacks of both are ready in one instant (2-way, FIFO within a side)',
+                      'send returns at once / takes a symbolic time',
                       'Timer op script'],
     'bounds': {'quick': {'requests_per_history': '<= 5 (3 direct searches + wishlist rounds of 2)', 'ops_per_history': '<= 9',
-                         'consecutive_tickets': 8, 'timer_script_ops': '<= 3', 'wishlist_task_rounds': '<= 3'},
+                         'consecutive_tickets': 8, 'timer_script_ops': '<= 4 (14 scripts)', 'wishlist_task_rounds': '<= 3',
+                         'histories': '17 curated + 3 at the wrap + 2 from the untouched constructor state + 3 with slow sends'},
                'thorough': {'requests_per_history': '<= 6', 'ops_per_history': 'all op strings of length <= 4 after the prefix TWI, '
-                            'curated ones up to 10', 'consecutive_tickets': 8, 'timer_script_ops': '<= 4', 'wishlist_task_rounds': '<= 3'}},
+                            'curated ones up to 10', 'consecutive_tickets': 8, 'timer_script_ops': 'all scripts <= 4 over w c r n y', 'wishlist_task_rounds': '<= 3'}},
     'outside': ['more requests / operations than the bound; ticket reuse after 2^32-1 further requests while an untimed request is still live',
                 'sending takes no time except in the send=slow scenarios (there: a fresh symbolic duration per send)',
                 'remove_request(ticket:int) form (the object form is used; a proxy is not an int)',
                 'remove_request of a request that is no longer registered (KeyError to the caller is accepted API behaviour)',
                 'a removal event after a user removal is tolerated (the statement forbids result events and errors only)',
                 'binary floating point rounding of loop.time() + timeout (the virtual clock is exact: Real while symbolic, Fraction in replays)',
-                'listeners that themselves call back into the manager'],
+                'listeners that themselves call back into the manager',
+                'time-out settings changed while a wishlist round is still sending (the job reads them once per round)'],
     'assumptions': ['asyncio Task/Future/sleep semantics of CPython 3.12', 'time-out settings within their documented domain (>= 0, wishlist >= -1)'],
 }
 
@@ -999,7 +1014,7 @@ def jobs(tier):
         if 'X' in s:
             req.append('manual_removal')
         out.append({'harness': 'scenario', 'fn': h_scenario, 'params': {'ops': s, 'position': pos}, 'requires': req})
-    for ops in (['TSDRDQ', 'ILDQD', 'TSDXDQ'] if q else ['TSDRDQ', 'ILDQD', 'TSDXDQ', 'TSRDQDXD', 'TSRDXDQ', 'TSDXDRDQ', 'WILDXDQD', 'ILDLDQD']):
+    for ops in (['TSDRDQ', 'ILDQD', 'TSDXDQ'] if q else ['TSDRDQ', 'ILDQD', 'TSDXDQ', 'TSRDQDXD', 'TSRDXDQ', 'TSDXDRDQ', 'WILDXDQD', 'ILDQDXD']):
         out.append({'harness': 'scenario', 'fn': h_scenario, 'params': {'ops': ops, 'position': 'low', 'send': 'slow'},
                     'requires': ['scenario_end', 'generator_position_symbolic', 'reply']})
     inst = [['remove'], ['reply'], ['reply_any'], ['search'], ['remove', 'reply']]
@@ -1023,6 +1038,17 @@ def jobs(tier):
         for pk, items in ([(False, 2), (True, 1)] if q else [(False, 2), (True, 1), (True, 2)]):
             out.append({'harness': 'wishlist_bg', 'fn': h_wishlist_bg, 'params': {'wmode': wm, 'picker': pk, 'items': items},
                         'requires': ['scenario_end', 'round1', 'round2', 'reply']})
+
+    def weight(j):      # long jobs first (the pool hands jobs out in list order)
+        p = j['params']
+        if j['harness'] == 'instant' and p.get('two_requests'):
+            return 0
+        if j['harness'] == 'scenario' and (p.get('position') == 'any' or p.get('send') == 'slow') and len(p['ops']) >= 8:
+            return 0
+        if j['harness'] in ('instant', 'wishlist_bg') or p.get('send') == 'slow' or p.get('position') == 'any':
+            return 1
+        return 2
+    out.sort(key=weight)
     return out
 
 
